@@ -10,12 +10,17 @@ Sizes(k) == CASE k \in {"tcp", "ip4"} -> {0, 1, 4, 7}
               [] k = "rtp" -> {0}
               [] k = "llc" -> {1, 2}
               [] k = "mld2" -> {0, 4, 6}
+              [] k = "dhcp1" -> {0, 8}
               [] OTHER -> {0, 1, 8, 9, 255}
 Codes(k) == IF k = "mld2" THEN {0, 1} ELSE {0, 1, 2}
 CanSpoof(k) == k \in {"tcp", "ip4", "icmp6", "dhcp", "dhcp6", "dot11", "pppoe"}
-CanRemove(k) == k \in {"tcp", "ip4", "icmp6", "dhcp", "dhcp6", "dot11", "rtp"}
-\* code 2 is the single-octet (No-Operation) code in TCP / IPv4: it carries no data
-Ops(k) == {o \in {[op |-> "add", code |-> c, size |-> s, spoof |-> -1] : c \in Codes(k), s \in Sizes(k)} : (k \in {"tcp", "ip4"} /\ o.code = 2) => o.size = 0}
+CanRemove(k) == k \in {"tcp", "ip4", "icmp6", "dhcp", "dhcp1", "dhcp6", "dot11", "rtp"}
+\* code 2 is the single-octet (No-Operation) code in TCP / IPv4: it carries no data.
+\* kind "dhcp1" is the DHCP container with its two single-octet codes (RFC 2132 3.1 Pad, 3.2 End) as A and B - added and REMOVED
+\* like any other entry - next to an ordinary code N
+Ops(k) == {o \in {[op |-> "add", code |-> c, size |-> s, spoof |-> -1] : c \in Codes(k), s \in Sizes(k)} :
+               /\ (k \in {"tcp", "ip4"} /\ o.code = 2) => o.size = 0
+               /\ (k = "dhcp1" /\ o.code \in {0, 1}) => o.size = 0}
           \cup (IF CanSpoof(k) THEN {[op |-> "addspoof", code |-> 0, size |-> 4, spoof |-> 10]} ELSE {})
           \cup (IF CanRemove(k) THEN {[op |-> "remove", code |-> c, size |-> 0, spoof |-> -1] : c \in {0, 1}} ELSE {})
           \cup {[op |-> "ser", code |-> 0, size |-> 0, spoof |-> -1]}
